@@ -319,6 +319,7 @@ var optSet = []evt.SubOpts{
 	{Once: true, Filter: 1},
 	{Async: true, Sequential: true},
 	{Once: true, Ctx: true, Filter: 1},
+	{Once: true, Async: true, Filter: 1},
 }
 
 func alphaOptions() []Op {
